@@ -796,3 +796,35 @@ pub fn scenarios(t: &Tables, seeds: &[String], seed: u64, n_small: usize, n_mate
     }
     Value::Array(out)
 }
+
+// queen-heavy legal positions (capture trees that explode): inputs for the time-bound checks
+pub fn heavy_positions(t: &Tables, seed: u64, n: usize, queens: usize) -> Value {
+    let mut rng = StdRng::seed_from_u64(seed);
+    let mut out = Vec::new();
+    let mut tries = 0;
+    while out.len() < n && tries < 200000 {
+        tries += 1;
+        let mut sqs: Vec<u32> = (1..=64).collect();
+        for i in (1..64).rev() {
+            let j = rng.gen_range(0..=i);
+            sqs.swap(i, j);
+        }
+        let mut pcs = vec![(sqs[0], 6u32), (sqs[1], 12u32)];
+        let nq = rng.gen_range(queens.saturating_sub(2).max(1)..=queens);
+        for i in 0..nq {
+            pcs.push((sqs[2 + i], 5));
+            pcs.push((sqs[2 + nq + i], 11));
+        }
+        let stm = rng.gen_range(0..2u32);
+        let b = crate::misc::board_from(t, &pcs, stm, 0, 0);
+        let (me, other) = if stm == 0 { (PieceColor::White, PieceColor::Black) } else { (PieceColor::Black, PieceColor::White) };
+        if is_check(&b, other) || is_check(&b, me) {
+            continue;
+        }
+        if generate_moves(&b, MoveGenerationMode::AllMoves, &t.hasher).is_empty() {
+            continue;
+        }
+        out.push(json!(to_fen(&b, 0, 1)));
+    }
+    Value::Array(out)
+}
